@@ -14,6 +14,7 @@ import (
 
 	"verif/internal/mon"
 	"verif/internal/textref"
+	"verif/internal/tmplref"
 	"verif/internal/vschema"
 	"verif/internal/wire"
 )
@@ -104,6 +105,9 @@ func decodeMsg(full string, b []byte) (proto.Message, error) {
 // diffFields names the top-level fields in which two messages differ.
 func diffFields(a, b proto.Message) string {
 	ra, rb := a.ProtoReflect(), b.ProtoReflect()
+	if ra.Descriptor().FullName() != rb.Descriptor().FullName() {
+		return fmt.Sprintf("want a %s %s, got a %s %s (another method's handler was reached)", ra.Descriptor().FullName(), jsonOf(a), rb.Descriptor().FullName(), jsonOf(b))
+	}
 	var out []string
 	fs := ra.Descriptor().Fields()
 	for i := 0; i < fs.Len(); i++ {
@@ -195,9 +199,13 @@ func execPos(e *env, c *Case) (o outcome) {
 				return
 			}
 		}
-		if strings.HasPrefix(kind, "panic@") {
+		switch {
+		case strings.HasPrefix(kind, "panic@"):
 			o.add(kind, what)
-		} else {
+		case hasDotSegment(c.Req.Path):
+			// input class of the path, whatever field the case was built for
+			o.add(kind+":path-capture-with-dot-segment", what)
+		default:
 			o.add(kind+":"+c.Class, what)
 		}
 		return
@@ -219,6 +227,16 @@ func execPos(e *env, c *Case) (o outcome) {
 		o.count("delivered_but_status_not_200")
 	}
 	return
+}
+
+// hasDotSegment: some segment of the path consists of dots only.
+func hasDotSegment(path string) bool {
+	for _, seg := range strings.Split(path, "/") {
+		if seg != "" && strings.Trim(seg, ".") == "" {
+			return true
+		}
+	}
+	return false
 }
 
 // applyRawJSON reads text as the JSON value of the field (the second reading
@@ -456,6 +474,9 @@ func (g *gen) finishEnc(p *plan, M proto.Message, idx int, class func(enc bodyEn
 	} else {
 		mux = []string{"", muxWithOptions, muxCustom, muxSkew}[g.n%4]
 	}
+	if !g.r.Thorough() && !enc.custom() && (g.n/4)%2 == 1 {
+		mux = "" // quick tier: the other mux kinds on half of the cases
+	}
 	if mux == muxSkew && p.rule.Svc != "" {
 		mux = muxWithOptions // the real testpb services have no second descriptor build
 	}
@@ -679,6 +700,32 @@ func (g *gen) neg(p *plan, lf leaf, via string, h hostile) (*Case, error) {
 		Field: lf.path(), Text: h.text, Via: via}, nil
 }
 
+// negRawPath: a multi-segment capture taken verbatim (may hold empty and dot
+// segments). One-sided: refused, or delivered exactly as written.
+func (g *gen) negRawPath(p *plan, v pathVar, text string) (*Case, error) {
+	base := vschema.NewMsg(p.in)
+	texts, err := p.fit(g.rng, base, -1)
+	if err != nil {
+		return nil, err
+	}
+	clearPath(base.ProtoReflect(), v.fds)
+	for _, o := range p.vars {
+		if o.field != v.field {
+			if err := textref.Apply(base.ProtoReflect(), o.fds, texts[o.field]); err != nil {
+				return nil, err
+			}
+		}
+	}
+	texts[v.field] = text
+	wireB, err := proto.Marshal(base)
+	if err != nil {
+		return nil, err
+	}
+	q := reqSpec{Verb: reqVerb(p.rule), Path: p.instantiate(texts)}
+	return &Case{Prop: "C03", Kind: "c03-neg", Class: "string:multi-segment-with-empty-or-dot-segments", Rule: p.rule, Req: q, Msg: wireB, MsgJSON: jsonOf(base),
+		Field: v.field, Text: text, Via: "path"}, nil
+}
+
 // sameOneofAsVar: the leaf shares a oneof with a path variable (setting one
 // clears the other, there is no message holding both).
 func sameOneofAsVar(p *plan, lf leaf) bool {
@@ -698,7 +745,7 @@ func sameOneofAsVar(p *plan, lf leaf) bool {
 	return false
 }
 
-const ruleC03 = "rules: body '*', body <field>, no body; path variables on top-level, nested and doubly nested fields, custom json_name fields, typed / enum / bytes / oneof / well-known-type variables, multi-segment and ** patterns, verb suffix; over the harness type vf.Req (dynamic), larking.testpb.ComplexRequest (dynamic rules) and the real larking.testpb annotations (Messaging, WellKnown, Complex). Positive cases: (a) systematic - every URL-expressible leaf field (depth <= 3) x every entry of its boundary table (int/uint 32/64 extremes, +-0, subnormal/max floats, empty/long/unicode/percent/quote strings, all base64 alphabets and padding lengths, enum names and unknown numbers, lists of length 1-3, every oneof arm, wrappers, Timestamp min/max/nanos, Duration +-, FieldMask nested paths), alone in a message with the path-bound fields; (b) random multi-field messages incl. maps, repeated messages, Struct/Value/ListValue/Any/Empty in the body part. The message is split into path captures (documented path characters only), percent-encoded query pairs (proto names / JSON names / mixed, shuffled keeping element order, enums by name or number) and a body (application/json with protojson option variations, application/protobuf, application/octet-stream, Content-Type absent; with and without Content-Encoding: gzip). Cases also rotate over a mux built with StatsOption and pass-through unary / stream interceptors, and a mux whose FilesOption registry is a second build of the descriptors from a revision of the types file with re-ordered and added fields (handlers keep using the first build). URL-only requests to the default mux are followed by the same request to a mux serving another generation of vf.Req (same field names, swapped numbers between same-kind fields; handler messages compared by name). Every rule is registered on two muxes - default options, and two extra media types (application/x-vf-json, application/x-vf-proto, magic-prefixed protojson / wire codecs) added with larking.CodecOption, whose bodies are sent too; cases alternate between them. Requests with a body rotate through one delivery feature each: HTTP/1.1 Content-Length (default), HTTP/2 with content-length, HTTP/2 without (ContentLength -1, no Transfer-Encoding), HTTP/1.0 close-delimited (ContentLength -1), HTTP/1.1 chunked, fragmented reads (random cuts, 1-byte reads, data-with-EOF), gzip bodies of 2 and 3 members cut at random offsets and with an empty member (RFC 1952). The recording handler must receive a proto.Equal message; a failure that disappears when the same request is delivered the default way is keyed by the delivery feature. Scope of positive claims: canonical protojson text forms, finite floats, no null, wrapper strings not enclosed in double quotes, maps / repeated messages / Struct / Any only in the body, body selectors on top-level fields. Wire-byte alphabet dimension: protobuf / octet-stream / gzip / JSON bodies of messages whose field 1 (string, bytes, fixed64, fixed32, double) and / or field 4 (int64, sint64, uint32, int32) hold values encoded as one repeated byte out of {0x20, 0x09, 0x0a, 0x0d, 0x00, 0x7f, 0xff, '{', '\"', 0x01, 0x80} (1-32 bytes), incl. bodies that consist only of JSON white-space bytes, on body '*' and body-field rules; JSON bodies surrounded by white space are a delivery feature. Body boundary dimension (own schema vf.transcode.Deep / Node plus ComplexRequest, body '*' and body field, JSON and protobuf, plain and gzip): nesting depth 1, 10, 49, 50, 51, 60, 99, 100, 101, 150, 500 (thorough 2000) of a self-recursive message (singular and repeated field), of google.protobuf.Value lists, Struct and ListValue; strings / bytes of 10^4..10^6 bytes and repeated / map fields of 10^4..10^5 elements (below the 4 MiB receive limit); the reference is what protojson / proto with default options reconstruct. One-sided cases: hostile text tables per kind and random single-character mutations of canonical texts through the query string and (path-safe texts) the path: if protojson rejects the text as bare and as quoted JSON scalar the request must fail before the handler; if larking accepts, the delivered message must equal a protojson reading. distinct = (rule, channel path|query|body-<codec>[+gzip], field kind class, value/text class, outcome)"
+const ruleC03 = "rules: body '*', body <field>, no body; path variables on top-level, nested and doubly nested fields, custom json_name fields, typed / enum / bytes / oneof / well-known-type variables, multi-segment and ** patterns, verb suffix; over the harness type vf.Req (dynamic), larking.testpb.ComplexRequest (dynamic rules) and the real larking.testpb annotations (Messaging, WellKnown, Complex). Positive cases: (a) systematic - every URL-expressible leaf field (depth <= 3) x every entry of its boundary table (int/uint 32/64 extremes, +-0, subnormal/max floats, empty/long/unicode/percent/quote strings, all base64 alphabets and padding lengths, enum names and unknown numbers, lists of length 1-3, every oneof arm, wrappers, Timestamp min/max/nanos, Duration +-, FieldMask nested paths), alone in a message with the path-bound fields; (b) random multi-field messages incl. maps, repeated messages, Struct/Value/ListValue/Any/Empty in the body part. The message is split into path captures (documented path characters only), percent-encoded query pairs (proto names / JSON names / mixed, shuffled keeping element order, enums by name or number) and a body (application/json with protojson option variations, application/protobuf, application/octet-stream, Content-Type absent; with and without Content-Encoding: gzip). Cases also rotate over a mux built with StatsOption and pass-through unary / stream interceptors, and a mux whose FilesOption registry is a second build of the descriptors from a revision of the types file with re-ordered and added fields (handlers keep using the first build). URL-only requests to the default mux are followed by the same request to a mux serving another generation of vf.Req (same field names, swapped numbers between same-kind fields; handler messages compared by name). Every rule is registered on two muxes - default options, and two extra media types (application/x-vf-json, application/x-vf-proto, magic-prefixed protojson / wire codecs) added with larking.CodecOption, whose bodies are sent too; cases alternate between them. Requests with a body rotate through one delivery feature each: HTTP/1.1 Content-Length (default), HTTP/2 with content-length, HTTP/2 without (ContentLength -1, no Transfer-Encoding), HTTP/1.0 close-delimited (ContentLength -1), HTTP/1.1 chunked, fragmented reads (random cuts, 1-byte reads, data-with-EOF), gzip bodies of 2 and 3 members cut at random offsets and with an empty member (RFC 1952). The recording handler must receive a proto.Equal message; a failure that disappears when the same request is delivered the default way is keyed by the delivery feature. Scope of positive claims: canonical protojson text forms, finite floats, no null, wrapper strings not enclosed in double quotes, maps / repeated messages / Struct / Any only in the body, body selectors on top-level fields. Wire-byte alphabet dimension: protobuf / octet-stream / gzip / JSON bodies of messages whose field 1 (string, bytes, fixed64, fixed32, double) and / or field 4 (int64, sint64, uint32, int32) hold values encoded as one repeated byte out of {0x20, 0x09, 0x0a, 0x0d, 0x00, 0x7f, 0xff, '{', '\"', 0x01, 0x80} (1-32 bytes), incl. bodies that consist only of JSON white-space bytes, on body '*' and body-field rules; JSON bodies surrounded by white space are a delivery feature. Body boundary dimension (own schema vf.transcode.Deep / Node plus ComplexRequest, body '*' and body field, JSON and protobuf, plain and gzip): nesting depth 1, 10, 49, 50, 51, 60, 99, 100, 101, 150, 500 (thorough 2000) of a self-recursive message (singular and repeated field), of google.protobuf.Value lists, Struct and ListValue; strings / bytes of 10^4..10^6 bytes and repeated / map fields of 10^4..10^5 elements (below the 4 MiB receive limit); the reference is what protojson / proto with default options reconstruct. Path values include dot segments ('.', '..', '...', 'a.', '.a') alone and inside multi-segment captures (delivered verbatim); ** captures with empty segments are one-sided (refused or verbatim, never cleaned). One-sided cases: hostile text tables per kind and random single-character mutations of canonical texts through the query string and (path-safe texts) the path: if protojson rejects the text as bare and as quoted JSON scalar the request must fail before the handler; if larking accepts, the delivered message must equal a protojson reading. distinct = (rule, channel path|query|body-<codec>[+gzip], field kind class, value/text class, outcome)"
 
 // RunC03 is the transcoded-request-reconstruction check.
 func RunC03(r *mon.Run) {
@@ -733,7 +780,7 @@ func RunC03(r *mon.Run) {
 	runConcC03(r, g)
 	all := append(append([]RuleSpec(nil), dyn...), real...)
 	nSeq := 0
-	nMulti := r.Pick(100, 6000)
+	nMulti := r.Pick(70, 6000)
 	nMut := r.Pick(4, 200)
 	for ri, rule := range all {
 		p, err := newPlan(rule)
@@ -774,8 +821,8 @@ func RunC03(r *mon.Run) {
 				n = len(pathStrVals)
 			}
 			for idx := 0; idx < n; idx++ {
-				if !r.Thorough() && (idx+ri)%2 == 1 && !p.isPathVar(lf.path()) {
-					continue // quick tier: every table entry on every other rule
+				if !r.Thorough() && (idx+ri)%3 != 0 && !p.isPathVar(lf.path()) {
+					continue // quick tier: every table entry on every third rule
 				}
 				run(g.single(p, lf, idx))
 			}
@@ -830,6 +877,16 @@ func RunC03(r *mon.Run) {
 			}
 			apply(r, c, o)
 		}
+		// (b2) multi-segment captures with empty and dot segments: never coerced
+		for _, v := range p.vars {
+			fd := v.fds[len(v.fds)-1]
+			if fd.Kind() != protoreflect.StringKind || fd.IsList() || v.pat[len(v.pat)-1].Kind != tmplref.StarStar || len(v.pat) != 1 {
+				continue
+			}
+			for _, t := range []string{"a//b", "docs/../img/./logo.png", "a/./b", "../x", "x/..", "a///b", "./a", "a/.", "a//"} {
+				run(g.negRawPath(p, v, t))
+			}
+		}
 		// (c) one-sided cases
 		for _, lf := range leaves {
 			if sameOneofAsVar(p, lf) && !p.isPathVar(lf.path()) {
@@ -859,8 +916,8 @@ func RunC03(r *mon.Run) {
 					hs = append(hs, hostile{mutate(g.rng, ts[0]), "mutated"})
 				}
 				for hi, h := range hs {
-					if !r.Thorough() && (hi+ri)%2 == 1 {
-						continue // quick tier: every hostile text on every other rule
+					if !r.Thorough() && (hi+ri)%3 != 0 {
+						continue // quick tier: every hostile text on every third rule
 					}
 					run(g.neg(p, lf, via, h))
 				}
